@@ -15,7 +15,7 @@ BIG = 10 ** 8
 MODEL = {"RPs": "@{2}", "RBs": "@{4}", "OPs": "@{2}", "OBs": "@{3}", "Lens": "@{1, 2}", "Coops": "@{TRUE, FALSE}", "MaxWire": 1, "Slack": 1,
          "ResetOnSet": True, "CheckOverflow": True, "AskOnce": True}
 PROPS = ["AsksAtThreshold", "CountersRestart", "StartsKex", "RefuserDropped"]
-KINDS = ["send-heavy", "recv-heavy", "interleaved", "idle", "refuser-passive", "refuser-active", "bytes", "refuser-chatty"]
+KINDS = ["send-heavy", "recv-heavy", "interleaved", "idle", "refuser-passive", "refuser-active", "bytes", "refuser-chatty", "recv-ignore-flood"]
 
 
 def limits(rnd, kind):
@@ -26,8 +26,8 @@ def limits(rnd, kind):
         for nm in L:
             L[nm]["rp"] = 5000
             L[nm]["rb"] = rnd.randint(6000, 20000)
-    if kind == "idle":
-        L["s"]["rp"], L["s"]["rb"] = 5000, 10 ** 7      # only the client's own sent counter can ask
+    if kind in ("idle", "recv-ignore-flood"):
+        L["s"]["rp"], L["s"]["rb"] = 5000, 10 ** 7      # only the client's own counters can ask
     return L
 
 
@@ -67,6 +67,16 @@ def run_session(rnd, kind):
             burst(S, nm, rnd, rnd.randint(10, 60))
             if rnd.random() < 0.7:
                 S.settle(deadline=6, quiet=0.06, mark=True)
+    elif kind == "recv-ignore-flood":
+        # the client receives nothing but MSG_IGNORE packets (keep-alive chaff), gapless: its run loop dispatches them with
+        # `continue` - the limit must be noticed all the same
+        for _ in range(rnd.randint(2, 3)):
+            for _ in range(L["c"]["rp"] + rnd.randint(5, 30)):
+                try:
+                    S.ts.send_ignore(rnd.randint(1, 64))
+                except Exception:
+                    break
+            S.settle(deadline=6, quiet=0.06, mark=True)
     elif kind == "interleaved":
         def side(nm, r):
             for _ in range(r.randint(2, 4)):
